@@ -120,13 +120,28 @@ def real(case):
     # stage eagerly.  So when the keyed run ends with an error although no full plain run raises, the precondition
     # "no user function raises" is evaluated on the plain run of every prefix of the pipeline.
     if muxprop.has_fatal(r['chunks']) and not any(muxprop.has_fatal(pl) for pl in r['plain'].values()):
-        for i in range(1, len(case['term'])):
-            for g, xs in groups(case).items():
-                p = muxprop.quiet(muxreal.run_plain, case['term'][:i], xs)
-                if muxprop.has_fatal(muxreal.trunc_chunks(p['chunks'])):
-                    r['empty_input'] = True
-                    return r
+        for g, xs in groups(case).items():
+            if raising_prefix(case['term'], xs):
+                r['empty_input'] = True
+                break
     return r
+
+
+def raising_prefix(term, xs, depth=0):
+    """does the plain run of some prefix of the pipeline — at top level or inside a tee_map branch, fed with what the
+    plain prefix before the tee_map delivers — raise on these items?"""
+    for i in range(1, len(term) + 1):
+        p = muxprop.quiet(muxreal.run_plain, term[:i], xs)
+        if muxprop.has_fatal(muxreal.trunc_chunks(p['chunks'])):
+            return True
+    for i, st in enumerate(term):
+        if st[0] == 'tee' and depth < 3:
+            p = muxprop.quiet(muxreal.run_plain, term[:i], xs)
+            inp = muxprop.items_of(muxreal.trunc_chunks(p['chunks']))
+            for b in st[2]:
+                if raising_prefix(b, inp, depth + 1):
+                    return True
+    return False
 
 
 def model_cmds(case):
